@@ -333,13 +333,38 @@ fn step(cx: &mut Cx, i: usize, op: &Op, a: &mut BinArchive, m: &mut Model) -> bo
             let (p, n) = (resolve_addr(*pos, size, false), resolve_size(*n).min(1 << 16));
             let at_end = p == size;
             let valid = at_end || (p <= size && p % 4 == 0 && n % 4 == 0);
-            let res = match cx.call(|| {
+            // every other writer allocation is preceded, on the SAME writer, by a request the statement rejects (misaligned cursor inside the data,
+            // or a cursor beyond the end): the writer must report the unchanged size afterwards and treat the real request as a fresh writer would
+            let prior_reject = (p / 4 + n) % 2 == 0;
+            let (res, notes) = match cx.call(|| {
                 let mut w = BinArchiveWriter::new(a, p);
-                w.allocate(n, *ge).map_err(|e| e.to_string())
+                let mut notes: Vec<String> = Vec::new();
+                if prior_reject {
+                    let bad = if size >= 2 && n % 8 >= 4 { 1 } else { size + 4 };
+                    w.seek(bad);
+                    if w.allocate(4, *ge).is_ok() {
+                        notes.push(format!("allocate(4) with the cursor at {bad} of a {size}-byte archive was accepted"));
+                    }
+                    if w.size() != size || w.length() != size {
+                        notes.push(format!("after a rejected allocate the writer reports size {} / length {} for a {size}-byte archive", w.size(), w.length()));
+                    }
+                    w.seek(p);
+                }
+                let r = w.allocate(n, *ge).map_err(|e| e.to_string());
+                let expect = if r.is_ok() { size + n } else { size };
+                if notes.is_empty() && (w.size() != expect || w.length() != expect || w.tell() != p) {
+                    notes.push(format!("after allocate({n}) at cursor {p} of a {size}-byte archive ({}) the writer reports size {} / length {} / cursor {}", if r.is_ok() { "accepted" } else { "rejected" }, w.size(), w.length(), w.tell()));
+                }
+                (r, notes)
             }) {
                 Some(r) => r,
                 None => return false,
             };
+            if let Some(n0) = notes.first() {
+                cx.fail("writer-consistent-after-rejected-request", n0.clone());
+                return false;
+            }
+            cx.label_if(prior_reject, "writer-allocate-after-rejected-request");
             match verdict(cx, res, Some(valid), "valid-insert-accepted") {
                 Some(true) => {
                     cx.label("writer-allocate");
@@ -626,7 +651,7 @@ impl Prop for C03 {
          every insert/remove request is prescribed (misaligned, beyond the end, overflowing => Err), and after EVERY step the full observable state is compared: size, all bytes, read_string/read_pointer on every cell, all_labels per \
          address, pointer_destinations; pending c-strings are observed through the serialized image read by the reference reader; the final state must survive serialize -> from_bytes. Don't-care zones: dangling pointer targets after truncate, \
          deallocate of an empty range. Bounded-exhaustive tier: all archives of 0..=2 cells (12 annotation/label choices per cell, label at the end, unaligned label) and of 3 cells (6 choices per cell) x every single allocate/deallocate with every \
-         address 0..=size+4, n in {0,1,4,8}, both flags, every truncate, overflowing removes, writer allocations (thorough: 3 cells with 12 choices, 4 cells with 6, and 2-op sequences). Non-trivial: the history contains a successful allocate/deallocate/truncate \
+         address 0..=size+4, n in {0,1,4,8}, both flags, every truncate, overflowing removes, writer allocations (thorough: 3 cells with 12 choices, 4 cells with 6, and 2-op sequences). Every other writer allocation is preceded on the same writer by a request the statement rejects (misaligned cursor, cursor beyond the end): size()/length()/tell() must be unchanged and the real request decided as on a fresh writer. Non-trivial: the history contains a successful allocate/deallocate/truncate \
          on an archive holding >= 1 annotation at or after the address. Distinct = distinct case value."
             .into()
     }
